@@ -26,6 +26,8 @@ enum OpCode : uint16_t {
   // algorithms
   OP_INTERP_SLERP = 70, OP_INTERP_CUBIC, OP_INTERP_SMOOTH, OP_AVG_BIINV, OP_AVG, OP_AVG_FL, OP_AVG_FR,
   OP_DECASTELJAU, OP_SMOOTH_PHI,
+  // more tangent -> ... (the 30..59 range is full)
+  OP_T_DATAPTR, OP_T_CONSTRUCT,
   // element mutators (dst = a)
   OP_M_ASSIGN = 90, OP_M_SETIDENTITY, OP_M_SETRANDOM, OP_M_PLUSEQ, OP_M_MULEQ, OP_M_NORMALIZE,
   OP_M_COEFFWRITE, OP_M_ALIAS, OP_M_ASSIGN_EIGEN, OP_M_MOVE_ASSIGN, OP_M_SUBVIEW_WRITE, OP_M_SETTERS,
